@@ -4,6 +4,7 @@ for a in "$@"; do
   kind=${a%%:*}; f=${a#*:}
   case $kind in
     mut) tools/evalbatchfile.sh $f ;;
+    mutskip) SKIP_CONFIRM=1 tools/evalbatchfile.sh $f ;;
     benign) tools/evalbenignfile.sh $f ;;
   esac
 done
